@@ -2,6 +2,8 @@ package main
 
 import (
 	"fmt"
+	"go/token"
+	"go/types"
 	"strings"
 
 	"golang.org/x/tools/go/ssa"
@@ -229,16 +231,19 @@ func c13StatesAppended(c *Ctx, r *Report, rule string) {
 				}
 				// first argument: the list read from the variable; second: the new state(s)
 				fromVar := false
-				for _, o2 := range origins(call.Call.Args[0], sliceOpts{}) {
+				// (the list may be read through a helper of the package: followed into its return statements)
+				for _, o2 := range append(origins(call.Call.Args[0], sliceOpts{}), c.originsIP(fn, call.Call.Args[0], 2)...) {
 					if o2.Kind == "call" && strings.HasSuffix(o2.Desc, "Connection).GetVar") {
 						fromVar = true
 					}
+				}
+				for _, o2 := range origins(call.Call.Args[0], sliceOpts{}) {
 					if o2.Kind == "call" && o2.Desc == "builtin append" && o2.V != ssa.Value(call) {
-						fromVar = false
+						fromVar = false // the list was already rebuilt by another append (new state first?)
 					}
 				}
 				varInNew := false
-				for _, o2 := range origins(call.Call.Args[1], sliceOpts{}) {
+				for _, o2 := range c.originsIP(fn, call.Call.Args[1], 2) {
 					if o2.Kind == "call" && strings.HasSuffix(o2.Desc, "Connection).GetVar") {
 						varInNew = true
 					}
@@ -255,5 +260,490 @@ func c13StatesAppended(c *Ctx, r *Report, rule string) {
 	}
 	if n == 0 {
 		r.bad(rule, "modules/l4tls", "SetVar tls_connection_states", "-", "the tls handler's store of the connection states was not found")
+	}
+}
+
+// c09SourceAddress: net.PacketConn.ReadFrom may return a nil address - a unixgram socket that is not bound to a path
+// has none (net.(*UnixConn).ReadFrom returns an untyped nil then). The UDP server loop keys its associations by the
+// source address: every method call on the address of a received packet must come after a test that it is not nil,
+// or one anonymous datagram ends the whole server process.
+func c09SourceAddress(c *Ctx, r *Report, rule string) {
+	r.rule(rule, "the source address of a received datagram (the address result of ReadFrom, kept in the packet record) is tested for nil before any method is called on it: a unixgram peer that is not bound to a path has no address, and a call on the nil interface ends the server loop", 1)
+	// the record fields that carry ReadFrom's address
+	type fkey struct{ sn, f string }
+	carriers := map[fkey]string{}
+	for _, fn := range c.Funcs {
+		if fn.Pkg == nil || short(fn.Pkg.Pkg.Path()) != "layer4" {
+			continue
+		}
+		for _, b := range fn.Blocks {
+			for _, in := range b.Instrs {
+				st, ok := in.(*ssa.Store)
+				if !ok {
+					continue
+				}
+				_, sn, f, ok := fieldAddr(st.Addr)
+				if !ok {
+					continue
+				}
+				for _, o := range origins(st.Val, sliceOpts{}) {
+					if call, ok := o.V.(*ssa.Call); ok && call.Call.IsInvoke() && call.Call.Method.Name() == "ReadFrom" {
+						carriers[fkey{sn, f}] = c.ipos(st)
+					}
+				}
+			}
+		}
+	}
+	if len(carriers) == 0 {
+		r.bad(rule, "layer4", "packet record", "-", "undecided: no record field that keeps the address result of ReadFrom was found")
+		return
+	}
+	n := 0
+	for _, fn := range c.Funcs {
+		if fn.Pkg == nil || short(fn.Pkg.Pkg.Path()) != "layer4" {
+			continue
+		}
+		for _, ci := range callsIn(fn) {
+			cm := ci.Common()
+			if !cm.IsInvoke() {
+				continue
+			}
+			ld, ok := cm.Value.(*ssa.UnOp)
+			var root ssa.Value
+			var chain string
+			if ok && ld.Op == token.MUL {
+				root, chain = fieldChain(ld.X)
+			} else if fv, ok := cm.Value.(*ssa.Field); ok {
+				_, sn, f, _ := fieldAddr(fv)
+				root, chain = fv.X, sn+"."+f+"/"
+			}
+			if root == nil || chain == "" {
+				continue
+			}
+			last := strings.Split(strings.TrimSuffix(chain, "/"), "/")
+			lf := last[len(last)-1]
+			i := strings.LastIndex(lf, ".")
+			if i < 0 {
+				continue
+			}
+			if _, isCarrier := carriers[fkey{lf[:i], lf[i+1:]}]; !isCarrier {
+				continue
+			}
+			n++
+			guarded := false
+			for _, cond := range edgeConds(ci.Block()) {
+				y, neq, ok := nilCheck(cond.V)
+				if !ok {
+					continue
+				}
+				var r2 ssa.Value
+				var c2 string
+				if l2, ok := y.(*ssa.UnOp); ok && l2.Op == token.MUL {
+					r2, c2 = fieldChain(l2.X)
+				} else if f2, ok := y.(*ssa.Field); ok {
+					_, sn, f, _ := fieldAddr(f2)
+					r2, c2 = f2.X, sn+"."+f+"/"
+				}
+				sameRoot := r2 == root
+				if !sameRoot && r2 != nil {
+					// two loads of one local variable
+					if a, ok := r2.(*ssa.UnOp); ok {
+						if b, ok := root.(*ssa.UnOp); ok && a.X == b.X {
+							sameRoot = true
+						}
+					}
+				}
+				if sameRoot && c2 == chain && ((neq && cond.Truth) || (!neq && !cond.Truth)) {
+					guarded = true
+				}
+			}
+			r.check(guarded, rule, fname(fn), lf+"."+cm.Method.Name()+"()", c.ipos(ci), "called behind a test that the address is not nil",
+				"a method is called on the source address of a received datagram without a test for nil (the field keeps ReadFrom's address result, stored at "+carriers[fkey{lf[:i], lf[i+1:]}]+"): one datagram from a unixgram socket that is not bound to a path ends the server loop - and the process - with a nil dereference")
+		}
+	}
+	if n == 0 {
+		r.bad(rule, "layer4", "uses of the source address", "-", "undecided: no method call on a received packet's address found")
+	}
+}
+
+// c09EmptyDatagram: an empty datagram is a datagram. bytes.Reader.Read on zero bytes reports io.EOF; if the virtual
+// connection's Read hands that on, the association's handler sees the end of the stream, returns, and the datagrams
+// queued behind the empty one are dropped when the connection is closed. Read is evaluated on a queue that delivers an
+// empty datagram first: the only ways to an end-of-stream result are the closed channel and the idle timer.
+func c09EmptyDatagram(c *Ctx, r *Report, rule string) {
+	r.rule(rule, "packetConn.Read, evaluated on a queue whose next datagram is empty (bytes.Reader.Read modelled faithfully: io.EOF on zero bytes): no path returns an error or end-of-stream because of the empty datagram - only the closed channel, the idle timer and the deadline end a Read without data", 1)
+	fnName := "layer4.(*packetConn).Read"
+	fn := c.Fn(fnName)
+	if fn == nil {
+		r.bad(rule, fnName, "exists", "-", "function not found")
+		return
+	}
+	sc := &Scenario{Name: "empty datagram first", MaxVisit: 3,
+		Heap:   map[string]SV{"global:io.EOF": {K: "ref", Known: true, Desc: "global:io.EOF"}},
+		Params: map[string]SV{"recv": symRef("recv", false), "p0": symSlice("b", 8)},
+		Inline: func(f *ssa.Function) bool { return strings.HasPrefix(fname(f), "layer4.") && f != fn },
+	}
+	sc.Call = func(callee string, args []SV, ev *symEval, st *symState) (SV, bool) {
+		switch callee {
+		case "bytes.NewReader":
+			if args[0].Len == nil || !args[0].Len.Known {
+				return SV{}, false
+			}
+			id := ev.fresh("reader")
+			st.heap["remaining:"+id] = *args[0].Len
+			return SV{K: "ref", Known: true, Desc: id}, true
+		case "(*bytes.Reader).Read":
+			rem, ok := st.heap["remaining:"+args[0].Desc]
+			if !ok || args[1].Len == nil || !args[1].Len.Known {
+				return SV{}, false
+			}
+			if rem.N == 0 {
+				return SV{K: "tuple", Desc: "rd", Elems: []SV{symInt(0), {K: "ref", Known: true, Desc: "global:io.EOF"}}}, true
+			}
+			n := rem.N
+			if args[1].Len.N < n {
+				n = args[1].Len.N
+			}
+			st.heap["remaining:"+args[0].Desc] = symInt(rem.N - n)
+			return SV{K: "tuple", Desc: "rd", Elems: []SV{symInt(n), symNil()}}, true
+		case "(*bytes.Reader).Len":
+			if v, ok := st.heap["remaining:"+args[0].Desc]; ok {
+				return v, true
+			}
+		case "layer4.isDeadlineExceeded":
+			return symBool(false), true
+		}
+		return SV{}, false
+	}
+	sc.Heap["recv.lastPacket"] = symNil()
+	sc.Heap["recv.lastBuf"] = symNil()
+	sc.Heap["recv.idleTimer"] = symRef("idle", false)
+	sc.Heap["recv.deadlineTimer"] = symRef("dl", false)
+	sc.Heap["pkt.pooledBuf"] = symSliceCap("pkt.pooledBuf", 9000, 9000)
+	sc.Heap["pkt.n"] = symInt(0)
+	sc.Recv = func(ch SV) (SV, bool) {
+		if strings.HasSuffix(ch.Desc, ".readCh") {
+			return symRef("pkt", false), true
+		}
+		return SV{}, false
+	}
+	paths, err := evalPaths(fn, sc)
+	if err != nil || len(paths) == 0 {
+		r.bad(rule, fnName, sc.Name, c.pos(fn.Pos()), fmt.Sprintf("undecided: %v", err))
+		return
+	}
+	var problems []string
+	judged := 0
+	for _, p := range paths {
+		if p.Outcome != "return" || len(p.Ret) != 2 {
+			continue
+		}
+		fired := selectFired(p)
+		onlyQueue := len(fired) > 0
+		for _, f := range fired {
+			if !strings.Contains(f, "readCh") {
+				onlyQueue = false
+			}
+		}
+		if !onlyQueue {
+			continue // closed, idle timer or deadline fired: their results are judged by C09.R7 / C05.R13
+		}
+		judged++
+		if !(p.Ret[1].Known && p.Ret[1].Nil) {
+			problems = append(problems, "after receiving only the empty datagram Read returns ("+p.Ret[0].Desc+", "+p.Ret[1].Desc+"): the handler takes it for the end of the client's stream and returns; the datagrams queued behind the empty one are dropped when the connection is closed")
+		}
+	}
+	r.check(len(problems) == 0, rule, fnName, sc.Name, c.pos(fn.Pos()), fmt.Sprintf("%d path(s), %d of them end after the queue alone fired: none reports an error", len(paths), judged), strings.Join(dedup(problems), "; "))
+}
+
+// c09CloseIdentity: a virtual connection that timed out notifies the server loop twice - when its Read gives up and
+// when it is closed - and the client may have been given a new connection in between. A notification that names only
+// the address makes the loop forget that new connection: the client's next datagram starts a third one while the second
+// is still being served, and its datagrams are split over two live connections. The entry is removed only if the
+// table still holds the very connection that notified.
+func c09CloseIdentity(c *Ctx, r *Report, rule string) {
+	r.rule(rule, "UDP association table: every delete is guarded by a comparison of the table's entry with the connection that sent the close notification (the notification carries the connection, not only its address): a late second notification of a timed-out connection does not remove the connection the client has been given since", 1)
+	fnName := "layer4.(*Server).servePacket"
+	fn := c.Fn(fnName)
+	if fn == nil {
+		r.bad(rule, fnName, "exists", "-", "function not found")
+		return
+	}
+	n := 0
+	for _, ci := range callsIn(fn) {
+		call, ok := ci.(*ssa.Call)
+		if !ok || calleeID(call) != "builtin delete" || len(call.Call.Args) != 2 {
+			continue
+		}
+		n++
+		m := call.Call.Args[0]
+		guarded := false
+		for _, cond := range edgeConds(call.Block()) {
+			bo, ok := cond.V.(*ssa.BinOp)
+			if !ok || bo.Op != token.EQL || !cond.Truth {
+				continue
+			}
+			for _, pr := range [][2]ssa.Value{{bo.X, bo.Y}, {bo.Y, bo.X}} {
+				entry, other := pr[0], pr[1]
+				isEntry := false
+				switch x := entry.(type) {
+				case *ssa.Lookup:
+					isEntry = x.X == m
+				case *ssa.Extract:
+					if lk, ok := x.Tuple.(*ssa.Lookup); ok && x.Index == 0 {
+						isEntry = lk.X == m
+					}
+				}
+				if !isEntry || !strings.HasSuffix(typeStr(other.Type()), "layer4.packetConn") {
+					continue
+				}
+				guarded = true
+			}
+		}
+		r.check(guarded, rule, fnName, fmt.Sprintf("delete#%d", n), c.ipos(call), "the entry is removed only if it is the connection that notified",
+			"the table entry is removed without comparing it with the connection that sent the notification: the second notification of a connection that timed out (Read gives up, later Close) removes the connection the client has been given in between - its next datagram starts a third connection while the second is still being served")
+	}
+	if n == 0 {
+		r.bad(rule, fnName, "delete", c.pos(fn.Pos()), "undecided: no delete from the association table found in the server loop")
+	}
+}
+
+// c09DatagramNotDropped: the server loop takes a datagram from the reader's queue and owns it - and its pooled buffer -
+// from then on. On every path from there to the next round of the loop the datagram is handed to an association's queue
+// or its buffer is given back to the pool; a path that does neither (another case of the hand-over select that just
+// goes on) loses a datagram of the client's stream without a trace and leaks the buffer.
+func c09DatagramNotDropped(c *Ctx, r *Report, rule string) {
+	r.rule(rule, "UDP server loop: on every path from the hand-over select to the next round of the loop the datagram in hand is queued (the send to the association's queue fired) or its buffer is returned to the pool - no case of the select just goes on with the datagram dropped", 1)
+	fnName := "layer4.(*Server).servePacket"
+	fn := c.Fn(fnName)
+	if fn == nil {
+		r.bad(rule, fnName, "exists", "-", "function not found")
+		return
+	}
+	n := 0
+	for _, b := range fn.Blocks {
+		for _, in := range b.Instrs {
+			sel, ok := in.(*ssa.Select)
+			if !ok {
+				continue
+			}
+			sendIdx := -1
+			for i, st := range sel.States {
+				if st.Dir == types.SendOnly {
+					if _, _, f, ok := fieldAddr(func() ssa.Value {
+						if ld, ok := st.Chan.(*ssa.UnOp); ok {
+							return ld.X
+						}
+						return st.Chan
+					}()); ok && f == "readCh" {
+						sendIdx = i
+					}
+				}
+			}
+			if sendIdx < 0 {
+				continue // not the hand-over select
+			}
+			// the case bodies: follow the index tests behind the select
+			var idx ssa.Value
+			for _, ref := range *sel.Referrers() {
+				if ex, ok := ref.(*ssa.Extract); ok && ex.Index == 0 {
+					idx = ex
+				}
+			}
+			if idx == nil {
+				r.bad(rule, fnName, "hand-over select", c.ipos(sel), "undecided: the select's case index is not used")
+				continue
+			}
+			bodies := map[int]*ssa.BasicBlock{}
+			cur := sel.Block()
+			for steps := 0; steps < 8 && cur != nil; steps++ {
+				ifi, ok := cur.Instrs[len(cur.Instrs)-1].(*ssa.If)
+				if !ok {
+					break
+				}
+				bo, ok := ifi.Cond.(*ssa.BinOp)
+				if !ok || bo.Op != token.EQL || bo.X != idx {
+					break
+				}
+				k, ok := constInt(bo.Y)
+				if !ok {
+					break
+				}
+				bodies[int(k)] = cur.Succs[0]
+				cur = cur.Succs[1]
+			}
+			if _, has := bodies[len(sel.States)-1]; !has && cur != nil {
+				bodies[len(sel.States)-1] = cur // the last case is the final else
+			}
+			isPut := func(x ssa.Instruction) bool {
+				ci, ok := x.(ssa.CallInstruction)
+				if !ok {
+					return false
+				}
+				kind, _, _ := poolOp(ci)
+				return kind == "put"
+			}
+			// the next round: any block that receives from the reader's queue again (the outer select) - found as a
+			// select other than this one
+			nextRound := func(x ssa.Instruction) bool {
+				s2, ok := x.(*ssa.Select)
+				return ok && s2 != sel
+			}
+			for k, st := range sel.States {
+				if k == sendIdx {
+					continue
+				}
+				n++
+				body := bodies[k]
+				name := fmt.Sprintf("hand-over select, case %d", k)
+				_ = st
+				if body == nil {
+					r.bad(rule, fnName, name, c.ipos(sel), "undecided: the body of this case was not found")
+					continue
+				}
+				var leak ssa.Instruction
+				if len(body.Instrs) > 0 {
+					seen := map[*ssa.BasicBlock]bool{body: true}
+					work := []*ssa.BasicBlock{body}
+					for len(work) > 0 && leak == nil {
+						bb := work[len(work)-1]
+						work = work[:len(work)-1]
+						blocked := false
+						for _, x := range bb.Instrs {
+							if isPut(x) {
+								blocked = true
+								break
+							}
+							if nextRound(x) || isReturn(x) {
+								leak = x
+								break
+							}
+						}
+						if blocked || leak != nil {
+							continue
+						}
+						for _, su := range bb.Succs {
+							if !seen[su] {
+								seen[su] = true
+								work = append(work, su)
+							}
+						}
+					}
+				}
+				r.check(leak == nil, rule, fnName, name, c.ipos(sel), "the datagram's buffer is returned to the pool before the loop goes on",
+					"this case of the hand-over select goes on to the next round of the loop without queueing the datagram in hand and without returning its buffer: the datagram disappears from its client's stream (and its buffer is never reused)")
+			}
+		}
+	}
+	if n == 0 {
+		r.bad(rule, fnName, "hand-over select", c.pos(fn.Pos()), "undecided: the select that hands a datagram to its association was not found")
+	}
+}
+
+// c04HelloConn: the handshake sub-matchers of the tls app (remote_ip, local_ip ...) call hello.Conn.RemoteAddr()
+// without a test. The hello the tls matcher hands them is its own parse result, whose Conn is nil until the matcher
+// sets it: it is set on every path to the first sub-matcher - also for a hello whose parse ended early.
+func c04HelloConn(c *Ctx, r *Report, rule string) {
+	r.rule(rule, "tls matcher: ClientHelloInfo.Conn is assigned on every path to the first handshake sub-matcher (sub-matchers of the tls app call hello.Conn.RemoteAddr() without a test; a parse that ended early still yields a hello they are asked about)", 1)
+	fnName := "modules/l4tls.(*MatchTLS).Match"
+	fn := c.Fn(fnName)
+	if fn == nil {
+		r.bad(rule, fnName, "exists", "-", "function not found")
+		return
+	}
+	var sub ssa.CallInstruction
+	for _, ci := range callsIn(fn) {
+		if cm := ci.Common(); cm.IsInvoke() && cm.Method.Name() == "Match" && strings.Contains(typeStr(cm.Value.Type()), "ConnectionMatcher") {
+			sub = ci
+		}
+	}
+	if sub == nil {
+		r.bad(rule, fnName, "sub-matchers", c.pos(fn.Pos()), "undecided: the call of the handshake sub-matchers is not in the matcher itself")
+		return
+	}
+	isSet := func(in ssa.Instruction) bool {
+		st, ok := in.(*ssa.Store)
+		if !ok {
+			return false
+		}
+		_, sn, f, ok := fieldAddr(st.Addr)
+		return ok && f == "Conn" && strings.HasSuffix(sn, "ClientHelloInfo") && !isNilConst(st.Val)
+	}
+	isSetOrHelper := func(in ssa.Instruction) bool {
+		if isSet(in) {
+			return true
+		}
+		ci, ok := in.(ssa.CallInstruction)
+		if !ok {
+			return false
+		}
+		callee := ci.Common().StaticCallee()
+		if callee == nil || callee.Pkg != fn.Pkg || len(callee.Blocks) == 0 {
+			return false
+		}
+		return pathFromEntryAvoiding(callee, isReturn, isSet) == nil
+	}
+	skipped := pathFromEntryAvoiding(fn, func(in ssa.Instruction) bool { return in == sub.(ssa.Instruction) }, isSetOrHelper)
+	r.check(skipped == nil, rule, fnName, "ClientHelloInfo.Conn", c.ipos(sub), "assigned before the first sub-matcher is asked",
+		"the sub-matchers are reached on a path on which the hello's Conn was not assigned (a helper that assigns it has a way out that does not): a nested remote_ip or local_ip matcher calls hello.Conn.RemoteAddr() on nil - a panic in the connection's goroutine")
+}
+
+// c09UDPPoolLength: the socket reader hands whatever udpBufPool.Get returns straight to ReadFrom and relies on every
+// pooled slice having its full length. What is put into that pool is therefore a buffer as it came out of it (the
+// packet's pooledBuf), never a resliced view: a slice cut to length 0 makes the reader receive an empty datagram for
+// whichever client sends next, and its association ends.
+func c09UDPPoolLength(c *Ctx, r *Report, rule string) {
+	r.rule(rule, "every value put into the datagram buffer pool is a buffer as it was taken out (a packet's pooledBuf or the Get result itself), never a resliced view: the socket reader passes what it gets from the pool to ReadFrom as it is", 4)
+	n := 0
+	for _, fn := range c.Funcs {
+		if fn.Pkg == nil || short(fn.Pkg.Pkg.Path()) != "layer4" {
+			continue
+		}
+		k := 0
+		for _, ci := range callsIn(fn) {
+			if calleeID(ci) != "(*sync.Pool).Put" || len(ci.Common().Args) != 2 {
+				continue
+			}
+			isUDP := false
+			for _, o := range origins(ci.Common().Args[0], sliceOpts{}) {
+				if o.Kind == "global" && strings.HasSuffix(o.Desc, ".udpBufPool") {
+					isUDP = true
+				}
+			}
+			if !isUDP {
+				continue
+			}
+			n++
+			k++
+			resliced := ""
+			var walk func(v ssa.Value, d int)
+			seen := map[ssa.Value]bool{}
+			walk = func(v ssa.Value, d int) {
+				if v == nil || seen[v] || d > 8 {
+					return
+				}
+				seen[v] = true
+				switch x := stripBoxing(v).(type) {
+				case *ssa.Slice:
+					resliced = c.ipos(x)
+				case *ssa.Phi:
+					for _, e := range x.Edges {
+						walk(e, d+1)
+					}
+				case *ssa.UnOp:
+					if al, ok := x.X.(*ssa.Alloc); ok {
+						for _, sv := range storesToDeep(al) {
+							walk(sv, d+1)
+						}
+					}
+				}
+			}
+			walk(ci.Common().Args[1], 0)
+			r.check(resliced == "", rule, fname(fn), fmt.Sprintf("udpBufPool.Put#%d", k), c.ipos(ci), "puts the buffer back as it was taken out",
+				"what is put into the datagram buffer pool here was resliced at "+resliced+": the socket reader will hand a slice of that length to ReadFrom - the next datagram of some client is cut short (to nothing, for length 0) and its association ends")
+		}
+	}
+	if n == 0 {
+		r.bad(rule, "layer4", "udpBufPool.Put", "-", "no Put into the datagram buffer pool found")
 	}
 }
